@@ -27,7 +27,7 @@ def make_net(kind):
         extra = {f"p{i}": 2 for i in range(n)}
         size = {f"b{i}": 2 + (i % 2) for i in range(n)}
         size.update(extra)
-        return tuple(inputs), ("p0", "p3"), size
+        return tuple(inputs), tuple(f"p{i}" for i in (0, 3, 1, 2, 4, 5, 6, 7)), size
     if kind == "grid9":
         inputs = [[] for _ in range(9)]
         size = {}
